@@ -506,18 +506,25 @@ theorem stmtStep_pending (reg : Registry) (scope : List Path) (acc acc' : StmtAc
     · cases h
     · split at h
       · split at h
-        · cases h; simp
-        · exact absurd h (cast_ne_ok _ _)
+        · cases h
+        · split at h
+          · generalize (if (name != "_") = true then some name else none) = ident at h
+            split at h
+            · cases h
+            · cases h; simp
+          · exact absurd h (cast_ne_ok _ _)
       · exact absurd h (cast_ne_ok _ _)
   · rename_i fns hf
     simp only [hf, Bool.false_eq_true, if_false, Nat.add_zero]
     split at h
     · cases h
     · split at h
+      · cases h
       · split at h
-        · cases h; rfl
+        · split at h
+          · cases h; rfl
+          · exact absurd h (cast_ne_ok _ _)
         · exact absurd h (cast_ne_ok _ _)
-      · exact absurd h (cast_ne_ok _ _)
 
 theorem stmts_pending (reg : Registry) (scope : List Path) (l : List (Nat × G.Stmt)) (acc acc' : StmtAcc)
     (h : Res.foldlM (stmtStep reg scope) acc l = .ok acc') :
